@@ -169,7 +169,10 @@ func runPerCommand(c Config) (string, string) {
 }
 
 func judgeHandshake(c Config, r *kit.HSResult) (string, string) {
-	sh := shapes[c.Shape]
+	return judgeHandshakeShape(c, shapes[c.Shape], r)
+}
+
+func judgeHandshakeShape(c Config, sh shape, r *kit.HSResult) (string, string) {
 	e := table(c, sh)
 	class := "succeeds"
 	if e.fail {
@@ -306,6 +309,63 @@ func TestC10PerCommand(t *testing.T) {
 	ev.Exhaustive("all 256 level cells x 2 list shapes with the server policy handed out per command as one shared object, 3 connections in a row each")
 }
 
+// TestC10Sequences: ONE client configuration object (its method list included) used for several
+// handshakes in a row against servers that each offer a single method. Every handshake is judged by the
+// table on its own, and the caller's configuration must come back as it was handed in.
+func TestC10Sequences(t *testing.T) {
+	C, F, T := security.AuthClaimToBe, security.AuthFS, security.AuthToken
+	lists := [][]security.AuthMethod{{F, C}, {C, F}, {T, F, C}, {security.AuthMethod("GSI"), F, C}, {C, T}, {F, T, C}}
+	servers := []security.AuthMethod{C, F, T}
+	bad := 0
+	n := 0
+	for li, list := range lists {
+		if li%kit.NShards() != kit.Shard() {
+			continue
+		}
+		for order := 0; order < 6; order++ {
+			perm := [][]int{{0, 1, 2}, {0, 2, 1}, {1, 0, 2}, {1, 2, 0}, {2, 0, 1}, {2, 1, 0}}[order]
+			for _, lv := range []string{"PROO", "RROO", "OROR", "PPPP"} {
+				orig := append([]security.AuthMethod(nil), list...)
+				cfgList := append([]security.AuthMethod(nil), list...)
+				c := Config{Levels: lv, Command: true}
+				parseLevels(&c)
+				cc := kit.BaseConfig(levels[c.CA], levels[c.CE], cfgList...)
+				cc.AuthMethods = cfgList
+				tokenEnv.Apply(cc, nil)
+				for step, si := range perm {
+					sm := servers[si]
+					sc := kit.BaseConfig(levels[c.SA], levels[c.SE], sm)
+					tokenEnv.Apply(nil, sc)
+					cc.SessionCache = security.NewSessionCache() // every connection is a full handshake
+					usable := false
+					for _, m := range orig {
+						if m == sm {
+							usable = true
+						}
+					}
+					sh := shape{name: "sequence", c: orig, s: []security.AuthMethod{sm}, usable: usable}
+					v, class := judgeHandshakeShape(c, sh, kit.Handshake(cc, sc, 10*time.Second))
+					n++
+					ev.Case("sequence/"+class, fmt.Sprintf("seq:%d/%d/%s/%d", li, order, lv, step))
+					if v == "" && fmt.Sprint(cc.AuthMethods) != fmt.Sprint(orig) {
+						v = fmt.Sprintf("the handshake rewrote the caller's method list: %v became %v", orig, cc.AuthMethods)
+					}
+					if v != "" {
+						if bad < 4 {
+							bad++
+							msg := fmt.Sprintf("handshake #%d of one client configuration (list %v, server offers %v, levels %s): %s", step+1, orig, sm, lv, v)
+							kit.Violation("C10", msg, map[string]any{"sequence": []int{li, order}, "levels": lv})
+							t.Errorf("C10 violated: %s", msg)
+						}
+						break
+					}
+				}
+			}
+		}
+	}
+	ev.Exhaustive("6 client method lists x all 6 orders of three single-method servers x 4 level cells, one client configuration object per sequence")
+}
+
 func runAll(t *testing.T, cfgs []Config) {
 	var mu sync.Mutex
 	bad := 0
@@ -376,6 +436,7 @@ func TestC10Replay(t *testing.T) {
 		Config
 		PerCommand bool    `json:"per_command"`
 		Inner      *Config `json:"config"`
+		Sequence   []int   `json:"sequence"`
 	}
 	ok, err := kit.ReplayCase(&w)
 	if !ok {
@@ -383,6 +444,10 @@ func TestC10Replay(t *testing.T) {
 	}
 	if err != nil {
 		t.Fatal(err)
+	}
+	if len(w.Sequence) > 0 { // a sequence case: the sweep is deterministic and short, run all of it
+		TestC10Sequences(t)
+		return
 	}
 	c := w.Config
 	if w.PerCommand && w.Inner != nil {
